@@ -24,6 +24,18 @@ process_reinit_necessary shows to be necessary.  measure_reinit_policy() reads b
 the residue family checks the hypothesis on the real code (host `fpraise` of each flag, float effects at run time and
 in constant folding, compiles ending in every scanner situation, then observers vs a fresh process).
 
+Working directory (coq/VM/ApiGlobalCwd.v, Properties_C15c.v): third component of the modelled process state.  fopen_path
+(front/scanner.l) walks NEVER_PATH with chdir(); under `cwd_restoring` (both chdir(cwd) present — read from the tree by
+measure_reinit_policy) no history moves the directory and every compile resolves files as in a fresh process; necessary.
+The driver prints getcwd() after EVERY operation (line CWD) and oracle (4') demands that it never moves; the never-path
+family (NEVER_PATH unset / empty / relative / absolute / missing / several elements x program given as string, absolute,
+relative file name, then compiles of relative names and a `use` resolved in the working directory) is judged by (1), (4').
+Foreign calls (pool programs ffi, ffi2; libraries harness/api/c15ffi_*.c built into the work directory): the library
+handles are cached per VM, the libraries reference-counted by the process; the ffi-failure-then-valid family enumerates
+(failing entry: symbol missing from a library that loads / missing library / nil string, caught or unhandled) x (1..3
+failures in a row) x (same VM / another live VM / after vm_delete of the failing VM / second program sharing the library),
+each followed by valid calls into the same library, judged by (2), (2b), (5), (6).
+
 PARTIAL: the rest of compile determinism / isolation lives in C globals of the flex/bison runtime and back/utils.c
 (start condition, use stack, line_no, file name) that no Gallina model expresses — correspondence only (oracles 1, 4, 5).
 
@@ -62,6 +74,7 @@ execute:runtime-diagnostic-line-depends-on-earlier-call,
 execute:result-differs-from-reference-semantics, execute:unexplained-exit, compile:ret-depends-on-history,
 compile:line_no-not-reset, compile:diagnostics-depend-on-history, compile:code-depends-on-history,
 compile_file:missing-file-diagnostic-depends-on-history, isolation:<op>-changes-other-{program,vm},
+process:cwd-changed-by-<op>,
 sanitizer:<kind>:<first library frame>[:freed-by-<who>], crash:rc=<n>.  Every violation carries the shrunk history.
 Model correspondence: the extracted Api model (build/ocaml/api/run), its `exec` instantiated by replaying
 the observed per-call outcome classes and relative peaks, must predict initialized, sp before/after every
@@ -141,7 +154,48 @@ VALID = {
     "lexrich": {"entries": {"main": [()], "lablen": [("i:0",), ("i:12",)], "shifts": [("i:9",)], "total": [("i:4",)],
                             "weigh": [("f:1.0",), ("f:4.0",)], "pick": [("i:2",), ("i:7",)]},
                 "pure": True, "state": None},
+    # --- modules found through NEVER_PATH (corpus/C15/pool/mods, mods2): resolving a `use` walks the path elements with
+    #     chdir(); the working directory is PROCESS state
+    "usepath": {"entries": {"main": [()], "triple": [("i:1",), ("i:14",), ("i:-5",)]}, "pure": True, "state": None},
+    "usepath2": {"entries": {"main": [()], "mix": [("i:10",), ("i:28",)]}, "pure": True, "state": None},
+    # --- foreign calls: two libraries built into the work directory (harness/api/c15ffi_*.c, found through
+    #     LD_LIBRARY_PATH); a symbol that is missing from a library that loads, a missing library, a nil string argument
+    #     (each caught by the program or not), next to valid calls into the same libraries.  The library handles live in
+    #     a per-VM cache, the libraries themselves are reference-counted by the PROCESS
+    "ffi": {"entries": {"main": [()], "good": [("i:21",), ("i:-4",), ("i:1000",)], "other": [("i:1",), ("i:41",)],
+                        "bad": [("i:1",)], "guarded": [("i:1",)], "nolib": [("i:1",)], "gnolib": [("i:1",)],
+                        "slen": [(S("hi"),), (S(""),), (S("never lang"),)], "badnil": [("i:0",)], "gnil": [("i:0",)]},
+            "pure": True, "state": None},
+    "ffi2": {"entries": {"main": [()], "good": [("i:14",), ("i:-1",)], "other": [("i:7",)], "bad": [("i:1",)],
+                         "guarded": [("i:1",)]},
+             "pure": True, "state": None},
 }
+# which directories (relative to the pool) must be on the module search path for a pool source to compile
+REQUIRES = {"usemod": ["."], "usepath": ["mods"], "usepath2": ["mods", "mods2"]}
+# values of NEVER_PATH the histories put into the environment (None = unset); @POOL@ = absolute path of the pool
+NPATHS = [None, "", "mods", "@POOL@/mods", "nonexistent:mods", "mods:mods2", "@POOL@/mods2:mods", "mods2:@POOL@/mods",
+          ".:mods:mods2", "mods:.", "@POOL@/mods:@POOL@/mods2:@POOL@", "nonexistent"]
+FFI_FAILING = {"ffi": ["bad", "guarded", "nolib", "gnolib", "badnil", "gnil"], "ffi2": ["bad", "guarded"]}
+
+
+def search_dirs(npath):
+    """the directories (relative to the pool) fopen_path looks into for a module"""
+    if npath is None or npath == "":
+        return ["."]
+    out = []
+    for el in npath.split(":"):
+        if el == "@POOL@":
+            el = "."
+        elif el.startswith("@POOL@/"):
+            el = el[len("@POOL@/"):]
+        out.append(el)
+    return out
+
+
+def resolvable(src, npath):
+    return all(d in search_dirs(npath) for d in REQUIRES.get(src, []))
+
+
 FP_COMPILE_TIME = ["fpc_under", "fpc_over", "fpc_invalid", "fpc_inexact", "fpc_dunder"]
 INVALID = ["bad_lex", "bad_unterminated_string", "bad_unterminated_comment", "bad_syntax", "bad_types",
            "bad_constdiv2", "bad_missing_module", "bad_late_error", "bad_empty", "bad_in_module", "bad_eof",
@@ -372,11 +426,20 @@ INVALID += [nm for nm, _ in TRUNCATED]
 #   ["compile", h, "str"|"file", src]   ["vm_new", v, mem, stack]   ["prepare", h, entry, [args]]
 #   ["execute", h, v]                   ["pdel", h]                 ["vdel", v]
 #   ["fpraise", "flag,flag"]  ["fpclear"]   float arithmetic of the HOST application between API calls (no libnev call)
+#   ["env", "NEVER_PATH", value | None]     the host sets / unsets an environment variable (@POOL@ = the pool directory)
+# compile modes: "str" (nev_compile_str), "file" (nev_compile_file, absolute name), "rfile" (nev_compile_file, name relative
+# to the working directory)
 # ------------------------------------------------------------------------------------------
 def step_line(st):
     k = st[0]
     if k == "compile":
+        if st[2] == "rfile":           # nev_compile_file with a name relative to the working directory (= the pool)
+            return "compile_file %d %s" % (st[1], os.path.relpath(src_path(st[3]), POOLDIR))
         return "compile_%s %d %s" % (st[2], st[1], src_path(st[3]))
+    if k == "env":
+        if st[2] is None:
+            return "unsetenv %s" % st[1]
+        return ("setenv %s %s" % (st[1], st[2].replace("@POOL@", POOLDIR))).rstrip()
     if k == "vm_new":
         return "vm_new %d %d %d" % (st[1], st[2], st[3])
     if k == "prepare":
@@ -402,6 +465,7 @@ class Sim(object):
         self.vm = {}        # v -> {"bound": inc | None, "orphan": bool}
         self.ninc = 0
         self.nvinc = 0
+        self.npath = None   # NEVER_PATH in force
 
     def ok(self, st):
         k = st[0]
@@ -411,10 +475,10 @@ class Sim(object):
             return st[1] not in self.vm
         if k == "prepare":
             p = self.prog.get(st[1])
-            return p is not None and p["src"] in VALID
+            return p is not None and p["runnable"]
         if k == "execute":
             p, v = self.prog.get(st[1]), self.vm.get(st[2])
-            return (p is not None and v is not None and p["src"] in VALID and p["prep"] is not None
+            return (p is not None and v is not None and p["runnable"] and p["prep"] is not None
                     and not v["orphan"] and v["bound"] in (None, p["inc"]))
         if k == "pdel":
             return st[1] in self.prog
@@ -422,13 +486,16 @@ class Sim(object):
             return st[1] in self.vm
         if k in ("fpraise", "fpclear"):
             return True
+        if k == "env":
+            return st[1] == "NEVER_PATH"
         return False
 
     def apply(self, st):
         k = st[0]
         if k == "compile":
             self.ninc += 1
-            self.prog[st[1]] = {"src": st[3], "inc": self.ninc, "prep": None, "mode": st[2]}
+            self.prog[st[1]] = {"src": st[3], "inc": self.ninc, "prep": None, "mode": st[2], "npath": self.npath,
+                                "runnable": st[3] in VALID and resolvable(st[3], self.npath)}
         elif k == "vm_new":
             self.nvinc += 1
             self.vm[st[1]] = {"bound": None, "orphan": False, "stack": st[3], "vinc": self.nvinc}
@@ -445,6 +512,8 @@ class Sim(object):
                     v["orphan"] = True
         elif k == "vdel":
             self.vm.pop(st[1])
+        elif k == "env":
+            self.npath = st[2]
 
 
 def valid_history(hist):
@@ -474,10 +543,11 @@ def gen_history(rng, kind):
         h = free_handle(s.prog)
         if h is None:
             return
-        mode = rng.choice(["str", "str", "file"])
+        mode = rng.choice(["str", "str", "file", "rfile"])
         r = rng.random()
         if r < valid_p:
-            src = rng.choice(sorted(VALID))
+            ok_here = sorted(x for x in VALID if resolvable(x, s.npath))
+            src = rng.choice(ok_here if rng.random() < 0.9 else sorted(VALID))
         elif mode == "file" and r > 0.93:
             src = MISSING
         else:
@@ -486,9 +556,12 @@ def gen_history(rng, kind):
         if mode is not None:
             emit(["compile", h, mode, src])
 
+    def do_env():
+        emit(["env", "NEVER_PATH", rng.choice(NPATHS)])
+
     def do_call(h=None, v=None):
-        progs = [x for x in s.prog if s.prog[x]["src"] in VALID] if h is None else [h]
-        if not progs:
+        progs = [x for x in s.prog if s.prog[x]["runnable"]] if h is None else [h]
+        if not progs or not s.prog[progs[0]]["runnable"]:
             return
         h = rng.choice(progs)
         p = s.prog[h]
@@ -512,15 +585,17 @@ def gen_history(rng, kind):
         n = rng.randint(4, 14)
         for _ in range(n):
             r = rng.random()
-            if r < 0.7:
+            if r < 0.12:
+                do_env()
+            elif r < 0.7:
                 do_compile(valid_p=0.35)
             elif r < 0.85 and s.prog:
                 emit(["pdel", rng.choice(sorted(s.prog))])
             else:
                 do_call()
     elif kind == "repeat":
-        src = rng.choice(["counter", "pure", "faults", "churn", "strings", "globals2"])
-        emit(["compile", 0, rng.choice(["str", "file"]), src])
+        src = rng.choice(["counter", "pure", "faults", "churn", "strings", "globals2", "ffi"])
+        emit(["compile", 0, rng.choice(["str", "file", "rfile"]), src])
         emit(["vm_new", 0, rng.choice([5000, 2000]), rng.choice([200, 200, 120, 500, 1000])])
         n = rng.choice([1, 2, 3, 10, 40, 100, 200, 300])
         ents = VALID[src]["entries"]
@@ -534,12 +609,12 @@ def gen_history(rng, kind):
                 emit(["prepare", 0, e, list(rng.choice(ents[e]))])
             emit(["execute", 0, 0])
     elif kind == "twovm":
-        src = rng.choice(sorted(x for x in VALID if x != "initfail"))
+        src = rng.choice(sorted(x for x in VALID if x != "initfail" and resolvable(x, None)) + ["ffi", "ffi", "ffi2"])
         emit(["compile", 0, "str", src])
         emit(["vm_new", 0, 5000, 300])
         emit(["vm_new", 1, 5000, 300])
         if rng.random() < 0.5:
-            emit(["compile", 1, "str", rng.choice(sorted(VALID))])
+            emit(["compile", 1, "str", rng.choice(sorted(x for x in VALID if resolvable(x, None)))])
         for _ in range(rng.randint(4, 24)):
             if rng.random() < 0.15:
                 do_compile(valid_p=0.3)
@@ -565,7 +640,9 @@ def gen_history(rng, kind):
         n = rng.randint(8, 40)
         for _ in range(n):
             r = rng.random()
-            if r < 0.22 or not s.prog:
+            if r < 0.04:
+                do_env()
+            elif r < 0.22 or not s.prog:
                 do_compile()
             elif r < 0.30:
                 x = free_handle(s.vm)
@@ -634,9 +711,10 @@ FP_FLAGS = ["inexact", "underflow", "overflow", "invalid", "divbyzero"]
 
 
 def usable_mode(mode, src):
-    if (mode, src) not in CRASHING:
+    probe = "file" if mode == "rfile" else mode           # a relative name reaches the same code as an absolute one
+    if (probe, src) not in CRASHING:
         return mode
-    other = "str" if mode == "file" else "file"
+    other = "str" if probe == "file" else "file"
     return other if (other, src) not in CRASHING else None
 
 
@@ -734,10 +812,91 @@ def residue_histories(rng, limit=None):
 
 
 # ------------------------------------------------------------------------------------------
+# two more systematic families of operations that leave something behind OUTSIDE the program / VM they name
+# ------------------------------------------------------------------------------------------
+def ffi_histories(rng):
+    """foreign calls that fail in the FFI layer (symbol missing from a library that loads, missing library, nil string
+    argument; caught by the program or unhandled; once or several times in a row) followed by valid calls into the same
+    libraries: on the same VM, on another live VM, after vm_delete of the failing VM, from a second program sharing the
+    library whose own VM never failed.  Each library is reference-counted by the process and cached per VM, so the number
+    of VMs holding it and the number of failures both matter: enumerated."""
+    hists = []
+    def call(h, v, e, a):
+        return [["prepare", h, e, list(a)], ["execute", h, v]]
+    k = 0
+    for src, fails in sorted(FFI_FAILING.items()):
+        for f in fails:
+            for times in (1, 2, 3):
+                for scen in ("same-vm", "other-live-vm", "after-vm-delete", "two-programs"):
+                    k += 1
+                    if src == "ffi2" and (k % 2):
+                        continue                      # the second program repeats the first one's shape: every other one
+                    mode = ["str", "file", "rfile"][k % 3]
+                    good = VALID[src]["entries"]["good"]
+                    g = lambda: list(rng.choice(good))
+                    fa = list(VALID[src]["entries"][f][0])
+                    hist = [["compile", 0, mode, src], ["vm_new", 0, 5000, 300]]
+                    other_src = "ffi2" if src == "ffi" else "ffi"
+                    if scen == "same-vm":
+                        hist += call(0, 0, "good", g())
+                        for _ in range(times):
+                            hist += call(0, 0, f, fa)
+                        hist += call(0, 0, "good", g()) + call(0, 0, "other", VALID[src]["entries"]["other"][0]) + call(0, 0, f, fa) + call(0, 0, "good", g())
+                    elif scen == "other-live-vm":
+                        hist += [["vm_new", 1, 5000, 300]] + call(0, 0, "good", g()) + call(0, 1, "good", g())
+                        for _ in range(times):
+                            hist += call(0, 0, f, fa)
+                        hist += call(0, 1, "good", g()) + call(0, 0, "good", g()) + call(0, 1, "other", VALID[src]["entries"]["other"][0])
+                    elif scen == "after-vm-delete":
+                        hist += [["vm_new", 1, 5000, 300]] + call(0, 0, "good", g()) + call(0, 1, "good", g())
+                        for _ in range(times):
+                            hist += call(0, 0, f, fa)
+                        hist += [["vdel", 0]] + call(0, 1, "good", g()) + [["vm_new", 2, 5000, 300]] + call(0, 2, "good", g()) + call(0, 1, "good", g())
+                    else:
+                        og = lambda: list(rng.choice(VALID[other_src]["entries"]["good"]))
+                        hist += [["compile", 1, "str", other_src], ["vm_new", 1, 5000, 300]] + call(0, 0, "good", g()) + call(1, 1, "good", og())
+                        for _ in range(times):
+                            hist += call(0, 0, f, fa)
+                        hist += call(1, 1, "good", og()) + [["vdel", 0], ["pdel", 0]] + call(1, 1, "good", og()) + call(1, 1, "other", VALID[other_src]["entries"]["other"][0])
+                    assert valid_history(hist), hist
+                    hists.append(hist)
+    return hists
+
+
+def path_histories(rng):
+    """every value of NEVER_PATH (unset, empty, relative / absolute / missing elements, several elements) x the way the
+    program with the `use` is handed to the compiler (string, absolute file name, relative file name); then observers
+    whose outcome depends on where the process stands: nev_compile_file of relative names, a second `use` through the
+    same path, a `use` resolved in the working directory after the variable is unset, a call on a VM created before"""
+    hists = []
+    k = 0
+    for npath in NPATHS:
+        for mode in ("str", "file", "rfile"):
+            k += 1
+            srcs = [x for x in ("usepath2", "usepath", "usemod") if resolvable(x, npath)]
+            hist = [["compile", 0, "rfile", "counter"], ["vm_new", 0, 5000, 300], ["prepare", 0, "inc", ["i:5"]], ["execute", 0, 0],
+                    ["env", "NEVER_PATH", npath]]
+            use = srcs[k % len(srcs)] if srcs else "usepath"
+            hist.append(["compile", 1, mode, use])
+            if resolvable(use, npath):
+                e = sorted(VALID[use]["entries"])[k % len(VALID[use]["entries"])]
+                hist += [["vm_new", 1, 5000, 300], ["prepare", 1, e, list(VALID[use]["entries"][e][0])], ["execute", 1, 1]]
+            obs = [["compile", 2, "rfile", "counter"], ["compile", 3, "rfile", use], ["compile", 4, "rfile", "lexrich"],
+                   ["compile", 5, ["str", "file", "rfile"][(k + 1) % 3], srcs[(k + 1) % len(srcs)] if srcs else "usepath2"],
+                   ["compile", 6, "rfile", MISSING]]
+            obs = obs[k % len(obs):] + obs[:k % len(obs)]
+            hist += obs[:3] + [["execute", 0, 0], ["env", "NEVER_PATH", None], ["compile", 7, "rfile", "usemod"]] + obs[3:]
+            hist += [["prepare", 7, "bump", ["i:1"]], ["vm_new", 2, 5000, 300], ["execute", 7, 2]]
+            assert valid_history(hist), hist
+            hists.append(hist)
+    return hists
+
+
+# ------------------------------------------------------------------------------------------
 # running a script and parsing the driver's output
 # ------------------------------------------------------------------------------------------
 class Block(object):
-    __slots__ = ("idx", "op", "out", "err", "ret", "mod", "prep", "exe", "res", "P", "M", "V", "refused", "exit", "died")
+    __slots__ = ("idx", "op", "out", "err", "ret", "mod", "prep", "exe", "res", "P", "M", "V", "refused", "exit", "died", "cwd")
 
     def __init__(self, idx, op):
         self.idx, self.op = idx, op
@@ -746,6 +905,7 @@ class Block(object):
         self.P, self.M, self.V = {}, {}, {}
         self.exit = False
         self.died = False
+        self.cwd = None
 
 
 def unhex(h):
@@ -810,6 +970,8 @@ def parse_output(text):
         elif ln.startswith("V "):
             p = ln.split(" ", 2)
             cur.V[int(p[1])] = p[2]
+        elif ln.startswith("CWD "):
+            cur.cwd = unhex(ln[4:])
     return blocks, ended
 
 
@@ -832,6 +994,7 @@ def run_script(drv, workdir, lines):
     env["ASAN_OPTIONS"] = ASAN_ENV + ":log_path=" + logp
     env["UBSAN_OPTIONS"] = UBSAN_ENV + ":log_path=" + logp
     env.pop("NEVER_PATH", None)
+    env["LD_LIBRARY_PATH"] = os.path.join(workdir, "ffilib")        # c15ffi_a.so / c15ffi_b.so of the pool programs ffi, ffi2
     rc, so, se = common.sh([drv, path], timeout=120, cwd=POOLDIR, env=env)
     r = RunResult()
     r.rc, r.stderr = rc, se
@@ -918,19 +1081,25 @@ def strip_machine(out):
     return out if i < 0 else out[:i] + "<machine dump>"
 
 
-def get_solo_compile(env, mode, src):
-    k = (mode, src)
+def env_prefix(npath):
+    """the environment a compile ran in is part of its input: the fresh-process reference gets the same"""
+    return [] if npath is None else [["env", "NEVER_PATH", npath]]
+
+
+def get_solo_compile(env, mode, src, npath=None):
+    k = (mode, src, npath)
     if k not in env.solo_compile:
-        r = run_script(env.drv, env.workdir, [step_line(["compile", 0, mode, src])])
-        env.solo_compile[k] = (compile_obs(r.blocks[0]) if r.blocks and r.blocks[0].ret is not None else None, r.san)
+        r = run_script(env.drv, env.workdir, [step_line(s) for s in env_prefix(npath) + [["compile", 0, mode, src]]])
+        cb = [b for b in r.blocks if b.op[0].startswith("compile")]
+        env.solo_compile[k] = (compile_obs(cb[0]) if cb and cb[0].ret is not None else None, r.san)
     return env.solo_compile[k]
 
 
-def get_solo_call(env, src, entry, args, pre=None, stack=4000, mode="str"):
+def get_solo_call(env, src, entry, args, pre=None, stack=4000, mode="str", npath=None):
     """first call(s) on a fresh VM in a fresh process; pre = optional priming call (entry, args)"""
-    k = (src, entry, tuple(args), pre, mode)
+    k = (src, entry, tuple(args), pre, mode, npath)
     if k not in env.solo_call:
-        hist = [["compile", 0, mode, src], ["vm_new", 0, 20000, stack]]
+        hist = env_prefix(npath) + [["compile", 0, mode, src], ["vm_new", 0, 20000, stack]]
         if pre is not None:
             hist += [["prepare", 0, pre[0], list(pre[1])], ["execute", 0, 0]]
         hist += [["prepare", 0, entry, list(args)], ["execute", 0, 0]]
@@ -963,6 +1132,7 @@ def sub_history(hist, vinc, inc):
         s.apply(st)
         k = st[0]
         if k == "compile" and s.prog[st[1]]["inc"] == inc:
+            sub += env_prefix(s.prog[st[1]]["npath"])
             sub.append(["compile", 0, st[2], st[3]])
         elif k == "prepare" and s.prog[st[1]]["inc"] == inc:
             sub.append(["prepare", 0, st[2], st[3]])
@@ -1071,6 +1241,24 @@ def reference(src, state, entry, args):
             return ("int", state["total"])
         if entry == "get":
             return ("int", state["total"])
+    elif src in ("ffi", "ffi2"):
+        n = arg_int(args[0]) if args and args[0].startswith("i:") else 0
+        if entry == "good":
+            return ("int", wrap32((2 if src == "ffi" else 3) * n))
+        if entry == "main":
+            return ("int", 42)
+        if entry == "other":
+            return ("int", wrap32(n + 1))
+        if entry in ("bad", "nolib", "badnil"):
+            return ("U",)
+        if entry in ("guarded", "gnolib", "gnil"):
+            return ("int", {"guarded": -1, "gnolib": -2, "gnil": -3}[entry])
+        if entry == "slen":
+            return ("int", len(arg_str(args[0])))
+    elif src == "usepath":
+        return ("int", 42) if entry == "main" else ("int", wrap32(3 * arg_int(args[0])))
+    elif src == "usepath2":
+        return ("int", 42) if entry == "main" else ("int", cdiv(wrap32(3 * arg_int(args[0])), 2))
     return None
 
 
@@ -1096,6 +1284,41 @@ def finding(key, what, **kw):
     return d
 
 
+def cwd_findings(st, b, home):
+    if home is None or b.cwd is None or b.cwd == home:
+        return []
+    op = step_line(st).split(" ")[0]
+    return [finding("process:cwd-changed-by-%s" % op,
+                    "after `%s` the working directory of the process is %s; it was %s before and no "
+                    "operation of the embedding API is entitled to move it (relative file names of later compiles, relative "
+                    "NEVER_PATH elements and the host's own files are resolved against it)" % (
+                        " ".join(step_line(st).split(" ")[:3]), b.cwd.replace(POOLDIR, "<pool>"), home.replace(POOLDIR, "<pool>")),
+                    at_op=b.idx, cwd_before=home, cwd_after=b.cwd)]
+
+
+def compile_findings(env, hist, st, b, npath):
+    """(1) the k-th compile of a source = the same compile (same mode, same environment) alone in a fresh process"""
+    ref, _ = get_solo_compile(env, st[2], st[3], npath)
+    obs = compile_obs(b)
+    if ref is None or obs == ref:
+        return []
+    diff = [f for f in ("ret", "msgs", "stderr", "stdout", "module") if obs[f] != ref[f]]
+    if st[3] == MISSING:
+        key = "compile_file:missing-file-diagnostic-depends-on-history"
+    elif "ret" in diff:
+        key = "compile:ret-depends-on-history"
+    elif "msgs" in diff or "stderr" in diff or "stdout" in diff:
+        same_mod_lines = (LINE_RE.sub("#", "\n".join(obs["msgs"]) + obs["stderr"]) ==
+                          LINE_RE.sub("#", "\n".join(ref["msgs"]) + ref["stderr"]))
+        key = "compile:line_no-not-reset" if same_mod_lines else "compile:diagnostics-depend-on-history"
+    else:
+        key = "compile:code-depends-on-history"
+    return [finding(key, "compile #%d of %s (%s%s) differs from the same compile in a fresh process in %s" % (
+        sum(1 for s2 in hist[:b.idx + 1] if s2[0] == "compile"), st[3], st[2],
+        "" if npath is None else ", NEVER_PATH=%s" % npath, ",".join(diff)),
+        at_op=b.idx, expected=ref, observed=obs)]
+
+
 def evaluate(env, hist, want=None):
     """-> (findings, stats).  findings: list of dicts(key, what, detail...)"""
     F = []
@@ -1104,7 +1327,20 @@ def evaluate(env, hist, want=None):
     r = run_script(env.drv, env.workdir, [step_line(s) for s in hist])
     blocks = r.blocks
     if any(b.refused for b in blocks):
+        # the driver refused an operation (e.g. prepare on a program without a function table because its compile failed
+        # although the generator expected it to succeed): judge what ran before it by the compile / cwd oracles only
         stats["refused"] = 1
+        n_ok = next(i for i, b in enumerate(blocks) if b.refused)
+        sim = Sim()
+        home = os.path.realpath(POOLDIR)
+        for st, b in list(zip(hist, blocks))[:n_ok]:
+            sim.apply(st)
+            F.extend(cwd_findings(st, b, home))
+            home = b.cwd or home
+            if st[0] == "compile" and b.ret is not None:
+                F.extend(compile_findings(env, hist, st, b, sim.prog[st[1]]["npath"]))
+        if want is not None:
+            F = [f for f in F if f["key"] == want]
         return F, stats
     # (5) sanitizer / crash
     if (r.san or r.rc != 0) and blocks and blocks[-1].ret is None and len(blocks) <= len(hist) \
@@ -1112,7 +1348,10 @@ def evaluate(env, hist, want=None):
         # the process died inside a compile: does the same compile alone in a fresh process die the same way?  Then the
         # outcome does not depend on the history (the crash itself is property C05's finding)
         st = hist[len(blocks) - 1]
-        ref, rsan = get_solo_compile(env, st[2], st[3])
+        sim0 = Sim()
+        for s0 in hist[:len(blocks) - 1]:
+            sim0.apply(s0)
+        ref, rsan = get_solo_compile(env, st[2], st[3], sim0.npath)
         if ref is None and (sanitizer_key(rsan)[0] if rsan else "crash") == (sanitizer_key(r.san)[0] if r.san else "crash"):
             stats["crash_same_as_alone"] = 1
             r.san, r.rc = "", 0
@@ -1127,6 +1366,7 @@ def evaluate(env, hist, want=None):
     # bookkeeping of handles while walking the blocks
     sim = Sim()
     prev_P, prev_V = {}, {}
+    home = os.path.realpath(POOLDIR)            # the working directory the process is in (the driver is started in the pool)
     vm_calls = {}          # VM incarnation -> {"v", "inc", "stack", "src", "calls": [(block, src, entry, args)]}
     for st, b in zip(hist, blocks):
         k = st[0]
@@ -1138,6 +1378,9 @@ def evaluate(env, hist, want=None):
         elif k in ("vm_new", "vdel"):
             named_v.add(st[1])
         sim.apply(st)
+        # (4') the working directory belongs to the process: no operation of the API may move it
+        F.extend(cwd_findings(st, b, home))
+        home = b.cwd or home
         # (4) isolation
         if not b.exit:
             for h, d in b.P.items():
@@ -1154,34 +1397,19 @@ def evaluate(env, hist, want=None):
         # (1) compile determinism
         if k == "compile" and b.ret is not None:
             stats["compiles"] += 1
-            ref, _ = get_solo_compile(env, st[2], st[3])
-            obs = compile_obs(b)
-            if ref is not None and obs != ref:
-                diff = [f for f in ("ret", "msgs", "stderr", "stdout", "module") if obs[f] != ref[f]]
-                if st[3] == MISSING:
-                    key = "compile_file:missing-file-diagnostic-depends-on-history"
-                elif "ret" in diff:
-                    key = "compile:ret-depends-on-history"
-                elif "msgs" in diff or "stderr" in diff or "stdout" in diff:
-                    same_mod_lines = (LINE_RE.sub("#", "\n".join(obs["msgs"]) + obs["stderr"]) ==
-                                      LINE_RE.sub("#", "\n".join(ref["msgs"]) + ref["stderr"]))
-                    key = "compile:line_no-not-reset" if same_mod_lines else "compile:diagnostics-depend-on-history"
-                else:
-                    key = "compile:code-depends-on-history"
-                F.append(finding(key, "compile #%d of %s (%s) differs from the same compile in a fresh process in %s" % (
-                    sum(1 for s2 in hist[:b.idx + 1] if s2[0] == "compile"), st[3], st[2], ",".join(diff)),
-                    at_op=b.idx, expected=ref, observed=obs))
+            F.extend(compile_findings(env, hist, st, b, sim.prog[st[1]]["npath"]))
         if k == "execute":
             stats["executes"] += 1
             h, v = st[1], st[2]
             p = sim.prog[h]
             rec = vm_calls.setdefault(sim.vm[v]["vinc"], {"v": v, "inc": p["inc"], "stack": sim.vm[v]["stack"],
-                                                          "src": p["src"], "mode": p["mode"], "calls": []})
+                                                          "src": p["src"], "mode": p["mode"], "npath": p["npath"], "calls": []})
             rec["calls"].append((b, p["src"], p["prep"][0], p["prep"][1]))
     # per VM: stack oracle (3), replay (2), model correspondence
     for vinc in sorted(vm_calls):
         rec = vm_calls[vinc]
         v, inc, stack, src, calls, mode = rec["v"], rec["inc"], rec["stack"], rec["src"], rec["calls"], rec["mode"]
+        npath = rec["npath"]
         spec = VALID[src]
         sub = sub_history(hist, vinc, inc)
         died = any(b.exit for b, _, _, _ in calls)
@@ -1206,7 +1434,7 @@ def evaluate(env, hist, want=None):
                 # a failed global initialisation: the next call must not run against half-initialised globals
                 if n + 1 < len(calls) and calls[n + 1][0].exe is not None and calls[n + 1][0].exe["init"] == 1:
                     nb = calls[n + 1][0]
-                    solo = get_solo_call(env, src, calls[n + 1][2], calls[n + 1][3], mode=mode)
+                    solo = get_solo_call(env, src, calls[n + 1][2], calls[n + 1][3], mode=mode, npath=npath)
                     if solo is not None and nb.ret is not None and exec_obs(nb) != exec_obs(solo):
                         F.append(finding("execute:after-failed-global-init",
                                          "after a nev_execute whose global initialisation failed the next call ran "
@@ -1214,7 +1442,7 @@ def evaluate(env, hist, want=None):
                                              exec_obs(nb), exec_obs(solo)), at_op=nb.idx))
             # peak against the first such call on a fresh VM
             if c in ("H", "U", "A") and e["speak"] is not None:
-                solo = get_solo_call(env, src, entry, args, mode=mode)
+                solo = get_solo_call(env, src, entry, args, mode=mode, npath=npath)
                 if solo is not None and solo.exe is not None and solo.exe["speak"] is not None and classify(solo) == c:
                     start = e["entrysp"] if e["init"] == 0 else e["before"]
                     rel = e["speak"] - start
@@ -1286,7 +1514,7 @@ def evaluate(env, hist, want=None):
             if b.exe is None or b.exit or b.ret is None:
                 break
             if spec["pure"] and src != "initfail":
-                solo = get_solo_call(env, src, entry, args, mode=mode)
+                solo = get_solo_call(env, src, entry, args, mode=mode, npath=npath)
                 if solo is not None and exec_obs(b, True) == exec_obs(solo, True) and exec_obs(b) != exec_obs(solo):
                     F.append(stale_line_finding(n, v, entry, args, b, solo, "the first call on a fresh VM"))
                 if solo is not None and exec_obs(b, True) != exec_obs(solo, True):
@@ -1297,7 +1525,7 @@ def evaluate(env, hist, want=None):
             elif spec["state"] and prevb is not None and prevb[2] == spec["state"][0] and prevb[0].res \
                     and prevb[0].res.startswith("int ") and entry != spec["state"][1]:
                 state = prevb[0].res.split(" ")[1]
-                solo = get_solo_call(env, src, entry, args, pre=(spec["state"][1], ("i:" + state,)), mode=mode)
+                solo = get_solo_call(env, src, entry, args, pre=(spec["state"][1], ("i:" + state,)), mode=mode, npath=npath)
                 stats["primed"] += 1
                 if solo is not None and exec_obs(b, True) == exec_obs(solo, True) and exec_obs(b) != exec_obs(solo):
                     F.append(stale_line_finding(n, v, entry, args, b, solo, "a fresh VM primed with set(%s)" % state))
@@ -1307,7 +1535,7 @@ def evaluate(env, hist, want=None):
                                          n + 1, v, entry, " ".join(args), state, exec_obs(b), state, exec_obs(solo)), at_op=b.idx))
             prevb = (b, src, entry)
         # ---- model correspondence: the extracted Api model predicts the sp trajectory
-        mf, used, skipped, expl = model_check(env, v, stack, calls, src)
+        mf, used, skipped, expl = model_check(env, v, stack, calls, src, npath)
         stats["model_calls"] += used
         stats["model_skipped"] += skipped
         F.extend(mf)
@@ -1368,7 +1596,7 @@ def run_model(lines):
     return [l.split(" ") for l in so.split("\n") if l.startswith("R ")]
 
 
-def model_check(env, v, stack, calls, src):
+def model_check(env, v, stack, calls, src, npath=None):
     """the extracted model, fed the observed outcome classes and relative peaks, must predict sp before/after every
     call, the absolute peak and the call that kills the process.
     -> (findings, calls compared, calls skipped, death explained by the model?)"""
@@ -1383,7 +1611,7 @@ def model_check(env, v, stack, calls, src):
         k = (s, entry, tuple(args))
         if k in known:
             return known[k]
-        solo = get_solo_call(env, s, entry, args)
+        solo = get_solo_call(env, s, entry, args, npath=npath)
         if solo is None or solo.exe is None or solo.exe["speak"] is None or solo.exe["entrysp"] is None:
             return None
         return solo.exe["speak"] - solo.exe["entrysp"]
@@ -1561,6 +1789,13 @@ def measure_reinit_policy(repo):
             out["alloc_always"] = "string_new" in body and re.search(r"\bif\s*\(", body) is None
         m = re.search(r'^<C_STRING><<EOF>>\s*\{(.*?)^\}', lex, re.S | re.M)
         out["eof_frees"] = bool(m and "string_delete" in m.group(1) and re.search(r"string_value\s*=\s*NULL", m.group(1)))
+        # the policy of coq/VM/ApiGlobalCwd.v: the two chdir(cwd) of fopen_path's search loop
+        m = re.search(r"^FILE \* fopen_path\(.*?^\}", lex, re.S | re.M)
+        w = re.search(r"while \(\(path = strtok.*", m.group(0), re.S) if m else None
+        found = re.search(r"if \(ffile != NULL\)\s*\{(.*?)break;", w.group(0), re.S) if w else None
+        if found:
+            out["cwd_restore_on_found"] = "chdir(cwd)" in found.group(1)
+            out["cwd_restore_on_miss"] = "chdir(cwd)" in w.group(0)[found.end():]
     except OSError:
         pass
     return out
@@ -1609,6 +1844,14 @@ def run(ctx):
     except OSError as e:
         ctx.correspondence_broken("c15-binaries-unavailable", str(e))
         return
+    # the two libraries the pool programs ffi / ffi2 call into (found through LD_LIBRARY_PATH, see run_script)
+    os.makedirs(os.path.join(workdir, "ffilib"))
+    for nm in ("c15ffi_a", "c15ffi_b"):
+        rc, so, se = common.sh(["gcc", "-O0", "-w", "-shared", "-fPIC", "-o", os.path.join(workdir, "ffilib", nm + ".so"),
+                                os.path.join(common.VERIF, "harness", "api", nm + ".c")], timeout=120)
+        if rc != 0:
+            ctx.correspondence_broken("c15-ffi-library-does-not-build", se[-800:])
+            return
     ctx.coverage["partial"] = ("compile determinism/isolation (flex/bison/utils.c globals) is correspondence-only: no Gallina "
                                "model expresses that state; proved part = the VM/API bookkeeping of VM/Api.v")
     ctx.coverage["trusted_base"] = ctx.coverage.get("trusted_base", []) + [
@@ -1635,6 +1878,12 @@ def run(ctx):
     ctx.coverage["process_state_policy_measured(VM/ApiGlobal.v)"] = rp
     if rp.get("tested_subset_of_cleared") is None or rp.get("alloc_always") is None:
         ctx.correspondence_broken("process-state-policy-not-measurable", rp)
+    elif rp.get("cwd_restore_on_found") is None:
+        ctx.correspondence_broken("process-state-policy-not-measurable(fopen_path)", rp)
+    elif not (rp["cwd_restore_on_found"] and rp["cwd_restore_on_miss"]):
+        ctx.correspondence_broken("process-state-cwd-hypothesis(Properties_C15c.process3_history_as_in_fresh_process)",
+                                  {"measured": rp, "meaning": "fopen_path does not satisfy `cwd_restoring`: by working_directory_restore_necessary "
+                                   "a history exists whose last compile differs from a fresh process; the never-path family searches for it"})
     elif not (rp["tested_subset_of_cleared"] and (rp["alloc_always"] or rp.get("eof_frees"))):
         ctx.correspondence_broken("process-state-reinit-hypothesis(Properties_C15b.process_history_as_in_fresh_process)",
                                   {"measured": rp, "meaning": "the tree does not satisfy `reinitialises`: by process_reinit_necessary a "
@@ -1718,6 +1967,21 @@ def run(ctx):
             by[k] = by.get(k, 0) + 1
         residue_info = {"operations": len(rops), "histories": len(fam), "by_operation": by,
                         "observer_sources": OBSERVER_SOURCES, "observer_calls_of_fpb": [e for e, _ in OBSERVER_CALLS]}
+    family_info = {}
+    if replay_hist is None:
+        frng = random.Random(ctx.seed * 7919 + 16)
+        fam = ffi_histories(frng)
+        if quick and len(fam) > 60:
+            # every (program, failing entry, scenario) stays; the repeat counts are thinned
+            keep = [h for i, h in enumerate(fam) if i % 2 == 0 or i % 12 in (1, 3)]
+            fam = keep
+        for h in fam:
+            jobs.append((n, "ffi-failure-then-valid", ctx.seed, h)); n += 1
+        pfam = path_histories(frng)
+        for h in pfam:
+            jobs.append((n, "never-path", ctx.seed, h)); n += 1
+        family_info = {"ffi-failure-then-valid": len(fam), "never-path": len(pfam), "NEVER_PATH_values": NPATHS,
+                       "ffi_failing_entries": FFI_FAILING}
     for kind, cnt in plan:
         for _ in range(cnt):
             jobs.append((n, kind, ctx.seed, None)); n += 1
@@ -1761,9 +2025,13 @@ def run(ctx):
                             "are pool sources cut off in each scanner situation, a missing file): kinds mixed / compile-heavy / two "
                             "VMs of one program / 1..300 repeated executes / process-global residue (one operation that leaves the "
                             "IEEE status flags or the scanner statics dirty, then observers: math built-ins, printing, compiles of "
-                            "sources with string literals/comments/use); " % (len(VALID), len(INVALID), len(TRUNCATED)) +
+                            "sources with string literals/comments/use); foreign calls failing in the FFI layer followed by valid "
+                            "calls into the same library (same VM / other live VM / after vm_delete / second program), "
+                            "NEVER_PATH values x compile modes followed by compiles of relative file names (the working "
+                            "directory is recorded after every operation and must never move); " % (len(VALID), len(INVALID), len(TRUNCATED)) +
                             "non-trivial = a history with >= 2 compiles or a VM executed >= 2 times")
     ctx.coverage["process_global_residue_family"] = residue_info
+    ctx.coverage["ffi_and_module_path_families"] = family_info
     ctx.coverage["generator"] = {"kinds": kinds, "totals": tot, "outcome_classes_of_executes(H=result,U=unhandled,A=assert,"
                                  "I=init failed,D=process exit)": classes}
     for idx, kind, hist, F, st in results[:400]:
